@@ -239,6 +239,16 @@ def run(f, fixture, rep, cfg, tier):
         rep.check(ok, "R4", "q|%s" % ",".join(sorted(set(names))), "`?` exit propagates %s" % names,
                   "verify_digests can fail through `?` on %s, which is not a digest verdict" % names, rc.loc())
 
+    # ---- R8 the getters the presence tests rely on ---------------------------------------------------------------------
+    # a digest is "recorded" when its getter succeeds; a getter that fails on a present entry turns the check off
+    rep.rule("R8", "the typed getters accept every well-formed entry of their type (C05.R3)")
+    rep.include("c05", f, fixture, cfg, tier, "R8", "header getters (their failure silently skips a digest check)", only_rules={"R3"}, floor=10)
+
+    # ---- R7 the digest tags are rpm's digest tags ------------------------------------------------------------------
+    rep.rule("R7", "digest tag numbers equal rpm's (rpmtag.h)")
+    from tagtable import check_tag_numbers
+    check_tag_numbers(f, rep, "R7", names={"RPMSIGTAG_MD5", "RPMSIGTAG_SHA1", "RPMSIGTAG_SHA256", "RPMTAG_PAYLOADDIGEST", "RPMTAG_PAYLOADDIGESTALGO", "RPMTAG_SHA256HEADER", "RPMTAG_SHA1HEADER"})
+
     # ---- R5 numbering ------------------------------------------------------------------------
     adt = f.adt("DigestAlgorithm")
     got = {v["name"]: int(v["discr"]) for v in adt["variants"]}
